@@ -23,6 +23,27 @@ Inputs: the shared generated pipeline (levels 0-2, compressed or not, 1-4 subset
 on factors, chained attributes, 221, zero-count replications, replicated marker operators), files of tests/data
 and a sample of tests/benchmark_data  x  all child/attribute paths that exist in the wired tree up to depth 6
 (driver op `paths`)  x  slices at one or two steps  x  subset selectors, plus bare ids and `>` variants.
+Second round (harness/c16gen.py):
+  slice space   every message: the sites of its node tree (prefix, separator, id, number n of nodes of that id in one
+                sibling list, kind of list) are enumerated on the implementation's tree and slices are drawn from the
+                grid RELATIVE TO n (start, stop in {none, -(n+1) .. n+1}, step in {none, 1, 2, -1, -2}, indices
+                -(n+1) .. n+1), for `/`, `.` and `>` steps; n = 0 sites from ids that occur elsewhere in the message;
+                grid shapes: templates built so that sibling lists with exactly 1..6 nodes of one id exist at the
+                template top level, in one block of a fixed / delayed replication, nested, among the members of
+                Table D sequences, as repeated composite nodes, in the attribute list of an element / a factor (0..6
+                quality-information / substituted / first-order / difference / replaced values of one id), repeated
+                values pairwise distinct: the WHOLE grid at one site per (step kind, n), n = 0..6, and as `@`
+                selector for 1..6 subsets (which list kinds / storage form carry the whole grid rotates with the seed
+                in the quick tier; the thorough tier takes all); a sample of the grid at every other site;
+  bitmaps       random templates with one to four bitmap constructs of every operator kind (222 / 223 / 224 / 225 /
+                232, 236 / 237000 / 237255 / 235000) whose data-present bits are drawn per subset: equal number of
+                zero bits in another arrangement (equal flat descriptors, different owners), other numbers of zero
+                bits under a delayed or a smaller fixed count, equal bits; 2-6 subsets; every query also under `@[i]`
+                for every i and under reversed / tail / every-second selectors;
+  pool          random nested templates over three element ids with replication counts drawn per subset.
+All oracles and the model correspondence run on all of them; json-eval, bare-id and selector additionally on a copy of
+the template data whose values are replaced by the tag 'subset:flat position' (replication factors keep their value):
+the comparison then tells WHICH node was selected even when neighbouring values are equal or missing.
 Templates the wiring pass does not understand (open findings of C09/C07: an associated field in force over
 203 / 206 / marker / 008023, resumed class-33 runs) are excluded by the structural signatures of C09.
 """
@@ -530,7 +551,10 @@ def _evaluate(task):
         if task.get('sweep'):
             queries = sweep_selectors(rng, queries, n_sub)
         if task.get('grid'):
-            # the slice space relative to the number of matches at every kind of step (harness/c16gen.py)
+            # the slice space relative to the number of matches at every kind of step (harness/c16gen.py); fewer
+            # queries on long subsets (the model walks the whole tree for every `>` query)
+            if lens and max(lens) > 2000:
+                task = dict(task, grid=dict(task['grid'], max_sites=2, sample=4, zero_sites=0))
             sites, valued = G.merge_sites([G.enum_sites(td.decoded_nodes_all_subsets[i], MAX_DEPTH)
                                            for i in ([0] if comp else sub_pick)])
             gq, cells = G.site_queries(rng, sites, valued, labels, n_sub, task['grid'])
